@@ -60,6 +60,13 @@ def build_corpus(tier, rng):
     items.append(("samename", Item("E", [Variant("HTTPServer", "unit"), Variant("HttpServer", "unit"), Variant("Other", "unit")], metas=[EM("sall", "kebab-case")])))
     items.append(("samename", Item("E", [Variant("Crimson", "unit", [], [ser("Red")]), Variant("Red", "unit"), Variant("Blue", "tuple", [Field("u8")], [tos("Red")])])))
     items.append(("samename", Item("E", [Variant("A", "unit", [], [tos("x")]), Variant("B", "unit", [], [tos("x"), DISABLED]), Variant("C", "unit", [], [tos("x")])], metas=[EM("prefix", "p")])))
+    # `disabled` as a props KEY, or as the text of a literal, is not the option: the variant is declared and enabled in all four lists
+    from vlib.defs import props as props_, msg as msg_
+    for fieldless in (True, False):
+        items.append(("option-lookalikes", Item("E", [Variant("Open", "unit"),
+            Variant("Cancel", "unit" if fieldless else "tuple", [] if fieldless else [Field("u8")], [props_([("label", ("s", "Cancel")), ("disabled", ("s", "true"))])]),
+            Variant("Quit", "unit", [], [ser("disabled"), msg_("disabled")]), Variant("Gone", "unit", [], [DISABLED, props_([("disabled", ("b", False))])]),
+            Variant("Help", "unit", [], [props_([("default", ("i", 1)), ("transparent", ("b", True))])])])))
     # attributes of OTHER tools on a variant (#[deprecated], #[cfg(all())], #[non_exhaustive], #[doc(hidden)]) filter nothing: the variant
     # is declared and enabled, so it is counted, named, listed and iterated
     from vlib.defs import raw
